@@ -17,8 +17,13 @@ def handler(c):
     k = c['kind']
     try:
         if k == 'sim':
-            eng = DailyBusinessDaySimulationEngine(ts(c['start']), ts(c['stop']), pre_market=c['pre'], post_market=c['post'])
-            first = [[sec(e.ts), e.event_type] for e in eng]
+            # 'naive': the same wall-clock instants handed over without a time zone (the clock stamps UTC itself)
+            tsx = (lambda x: ts(x).tz_localize(None)) if c.get('naive') else ts
+            eng = DailyBusinessDaySimulationEngine(tsx(c['start']), tsx(c['stop']), pre_market=c['pre'], post_market=c['post'])
+            walk = list(eng)
+            if any(e.ts.tzinfo is None or e.ts.utcoffset().total_seconds() != 0 for e in walk):
+                return ['ok', [['not-utc', str(e.ts)] for e in walk][:3]]
+            first = [[sec(e.ts), e.event_type] for e in walk]
             again = [[sec(e.ts), e.event_type] for e in eng]        # the same engine object, iterated a second time
             if again != first:
                 return ['ok', first, again]
@@ -40,7 +45,9 @@ def handler(c):
                 out[1] = [['not-utc', str(x)] for x in r.rebalances][:3]
             if c.get('with_clock') and c['stop'] >= c['start']:
                 eng = DailyBusinessDaySimulationEngine(ts(c['start']), ts(c['stop']), pre_market=False, post_market=False)
-                out.append([[sec(e.ts), e.event_type] for e in eng])
+                n_first = len(list(eng))                                     # one full walk first (a count, a log ...)
+                out.append([[sec(e.ts), e.event_type] for e in eng])         # the walk the schedule is matched against
+                out.append(n_first)
             return out
         if k == 'civil':
             res = []
